@@ -59,7 +59,8 @@ func init() {
 	registerSuite("lifetime-e2e", func(c *suiteCtx) {
 		u := defaultUser()
 		for _, redis := range []bool{false, true} {
-			for _, lt := range []struct{ expire, csrf time.Duration }{{time.Hour, 4 * time.Hour}, {0, 0}, {2 * time.Hour, 10 * time.Minute}} {
+			for _, lt := range []struct{ expire, csrf time.Duration }{{time.Hour, 4 * time.Hour}, {0, 0}, {2 * time.Hour, 10 * time.Minute},
+				{9600 * time.Hour, 0}, {9600*time.Hour + time.Second, 0}, {30000 * time.Hour, time.Hour}} {
 				cfg := proxyCfg{Redis: redis, CookieExpire: lt.expire, CSRFExpire: lt.csrf, InjectRequest: defaultInject()}
 				e, err := newEnv(c, cfg)
 				if err != nil {
@@ -82,9 +83,20 @@ func init() {
 					}
 				}
 				probe("before-any-callback")
-				for i := 0; i < 2; i++ {
+				bigU := idpUser{Sub: "user-big", Email: "big@example.com", EmailVerified: true, PreferredUser: strings.Repeat("p", 3000), Groups: []interface{}{strings.Repeat("g", 2500), "x"}}
+				for i := 0; i < 3; i++ {
 					b := newBrowser()
-					lr := e.login(b, u, "/x")
+					who := u
+					if i == 2 {
+						who = bigU // a session that the cookie store must split over several cookies: every part carries the lifetime
+						e.idp.mu.Lock()
+						e.idp.initialTokenPad = fmt.Sprintf("%x", c.rng.bytes(3000)) // incompressible
+						e.idp.mu.Unlock()
+					}
+					lr := e.login(b, who, "/x")
+					e.idp.mu.Lock()
+					e.idp.initialTokenPad = ""
+					e.idp.mu.Unlock()
 					if !lr.OK || lr.CallbackResp == nil {
 						c.violation("HARNESS", "login failed in lifetime-e2e", nil)
 						continue
@@ -95,6 +107,19 @@ func init() {
 							if ck.MaxAge != int(expire.Seconds()) {
 								c.violation("C09", "Max-Age of the session cookie differs from the configured lifetime", map[string]interface{}{"max_age": ck.MaxAge, "cookie_expire": expire.String(), "login": i})
 							}
+						}
+					}
+					if i == 2 && !redis {
+						parts := 0
+						for _, ck := range lr.CallbackResp.Cookies {
+							if isSessionCookieNameH(e.opts.Cookie.Name, ck.Name) && ck.MaxAge >= 0 && ck.Value != "" {
+								parts++
+							}
+						}
+						if parts < 2 {
+							c.violation("HARNESS", "the big session was not split", parts)
+						} else {
+							c.count("c09:max-age-split")
 						}
 					}
 					if redis {
@@ -151,7 +176,7 @@ func init() {
 			}
 			e.close()
 		}
-		c.close([]string{"c09:probe-before-any-callback", "c09:probe-after-callback-1", "c09:max-age", "c09:not-refreshable"})
+		c.close([]string{"c09:probe-before-any-callback", "c09:probe-after-callback-1", "c09:max-age", "c09:not-refreshable", "c09:max-age-split"})
 	})
 
 	registerSuite("storeleak", func(c *suiteCtx) {
